@@ -240,9 +240,13 @@ Crash ==
   /\ mark' = [n |-> Len(lseq), c |-> consumed, ws |-> wSync, cs |-> cSync, top |-> Len(enq)]
   /\ UNCHANGED <<fsvars, rf, rp, wf, wp, depth, nrf, nrp, needSync, count, wopen, pending, pc, ret, enq, lseq, consumed, taken, wSync, cSync, rdvars>>
 \* Close(): ioLoop leaves at the select, files are closed, then sync()
+\* deviation "close_sync_before_exit": Close() persists the metadata first and stops the loop afterwards; what the
+\* consumer takes (and a producer puts) in between is not covered by any sync -- as a model step: the loop stops
+\* without the final sync, some earlier sync (a tick) having been the last one
 CleanClose ==
   /\ AllowReopen /\ up /\ pc = "select"
-  /\ pc' = "sync_tmp" /\ ret' = "closed" /\ wopen' = FALSE /\ ropen' = FALSE /\ rbuf' = <<>> /\ rfoff' = 0
+  /\ pc' = (IF Mutant = "close_sync_before_exit" THEN "closed" ELSE "sync_tmp")
+  /\ ret' = "closed" /\ wopen' = FALSE /\ ropen' = FALSE /\ rbuf' = <<>> /\ rfoff' = 0
   /\ UNCHANGED <<fsvars, rf, rp, wf, wp, depth, nrf, nrp, needSync, count, pending, up, hist>>
 Closed ==
   /\ up /\ pc = "closed" /\ up' = FALSE
